@@ -131,4 +131,102 @@ theorem search_range_finds_all (fs : FS) (al : List AFile) (hrep : Rep fs al) (h
       rw [← hfromEq, List.map_append, takeWhile_append_neg _ _ _ hall']
 
 
+
+/-- **Every write history leaves a well-formed directory** (`WInv` is established by `Writer.new` - `new_inv` - and kept by every
+`write` - `write_inv`: any timestamps incl. repeated, older and day-changing seconds, empty batches, any size limit and file
+count), **and a time-range search on it returns exactly the accepted items that retention has not removed, in write order.**
+`held` is a suffix of the accepted items: retention removes whole oldest files only (`roll_spec`: a roll-over keeps the newest
+`maxFiles - 1` files and adds the new one). -/
+theorem written_items_are_found (maxSize maxFiles nowMs : Nat) (hist : List (Nat × List MItem)) (w0 : Writer) (acts : List Act)
+    (hnew : Writer.new {} maxSize maxFiles nowMs = some (w0, acts))
+    (hgood : ∀ p ∈ hist, ∀ it ∈ p.2, GoodItem { it with ts := p.1 })
+    (hts : nowMs / 1000 < 18446744073709551616 ∧ ∀ p ∈ hist, p.1 / 1000 < 18446744073709551616)
+    (hbytes : histBytes hist < 18446744073709551616) (hitems : histItems hist < MAX_ITEM_AMOUNT) :
+    ∃ k, ∀ b e res,
+      (searchRange (runWrites w0 (({} : FS).applyAll acts) hist).2.1 {} b e res).2 =
+        some (specRange (((runWrites w0 (({} : FS).applyAll acts) hist).2.2.drop k).map stored) b e res) := by
+  obtain ⟨al0, hinv0, hitems0⟩ := new_inv maxSize maxFiles nowMs w0 acts hnew
+  obtain ⟨al, hinv, k, hk⟩ := run_inv hist w0 _ al0 0 0 hinv0 hgood
+  have hl0 : w0.latest = nowMs / 1000 := by
+    unfold Writer.new at hnew
+    split at hnew
+    · simp at hnew
+    · simp only [Option.some.injEq, Prod.mk.injEq] at hnew
+      rw [← hnew.1]
+  have hlatest : (runWrites w0 (({} : FS).applyAll acts) hist).1.latest ≤ 18446744073709551615 :=
+    run_latest_le hist w0 _ 18446744073709551615 (by rw [hl0]; omega) (fun p hp => by have := hts.2 p hp; omega)
+  obtain ⟨hrep, hwf, hlive⟩ := winv_rep_wf _ _ al _ _ hinv (by omega) (by omega) (by omega)
+  refine ⟨k, fun b e res => ?_⟩
+  rw [search_range_finds_all _ al hrep hwf hlive b e res, hk, hitems0, List.nil_append]
+
+/-- retention: a roll-over keeps the newest `maxFiles - 1` files (all of them while there are fewer) -/
+theorem retention_keeps_newest (n maxFiles : Nat) (h : 0 < maxFiles) : n - dropCount n maxFiles = min n (maxFiles - 1) := by
+  unfold dropCount; split <;> omega
+
+/-! non-vacuity: a concrete history (two seconds, a roll-over by size, retention of two files) meets the hypotheses, and the
+model's answer on it is the expected one -/
+def exItem (r : String) (p : Nat) : MItem :=
+  { resource := r.toList, rtype := 1, ts := 0, pass := p, block := 0, complete := p, error := 0, rt := 3, occupied := 0, conc := 1 }
+def exHist : List (Nat × List MItem) :=
+  [(1700000001000, [exItem "a" 1, exItem "b" 2]), (1700000001500, [exItem "a" 3]), (1700000002000, [exItem "c" 4])]
+
+example : ∀ p ∈ exHist, ∀ it ∈ p.2, GoodItem { it with ts := p.1 } := by
+  intro p hp it hit
+  simp only [exHist, List.mem_cons, List.not_mem_nil, or_false] at hp
+  rcases hp with rfl | rfl | rfl <;> simp only [List.mem_cons, List.not_mem_nil, or_false] at hit <;>
+    (try rcases hit with rfl | rfl) <;> (try subst hit) <;>
+    refine ⟨by simp [MItem.inRange, exItem, u64MaxL, u32MaxL], fun c hc => ?_⟩ <;>
+    simp [exItem] at hc <;> subst hc <;> simp [plainC]
+
+
+/-- the model executed on that history (a test, labelled as such): a 100-byte size limit rolls the file after the second write -/
+def exRun := match Writer.new {} 100 2 1700000000500 with
+  | some (w, acts) => some (runWrites w (({} : FS).applyAll acts) exHist)
+  | none => none
+
+example : (exRun.map (fun r => (r.2.1.listLogs, (searchRange r.2.1 {} 1700000001500 1700000002999 "a".toList).2.map (·.map (fun it => (it.ts, it.pass)))))) =
+    some ([⟨19675, 0⟩, ⟨19675, 1⟩], some [(1700000001000, 1), (1700000001500, 3)]) := by decide +kernel
+
+/-! the clauses the end-to-end theorem rests on, under the names used in DESIGN.md -/
+
+/-- index entries are read back as written -/
+theorem index_entry_roundtrip (n : Nat) (rest : Bytes) (h : n < 18446744073709551616) : unbe64 (be64 n ++ rest) = some n :=
+  unbe64_be64 n rest h
+
+/-- the index search finds the first group at or after the begin second and the byte offset of its first line; a torn last
+entry (fewer than 16 bytes) never changes the answer -/
+theorem index_search_first_entry (gs : List Group) (b : Nat) (torn : Bytes) (ht : torn.length < 16)
+    (hs : ∀ g ∈ gs, g.1 < 18446744073709551616) (ho : (groupsBytes gs).length < 18446744073709551616) :
+    findEntry (idxOf 0 gs ++ torn) b = firstOffset gs b := by
+  rw [findEntry_idxOf gs 0 b torn ht hs (by omega)]
+  unfold firstOffset
+  split <;> simp_all
+
+/-- every character survives the UTF-8 round trip of the model's own encoder/decoder -/
+theorem utf8_roundtrip (cs : List Char) : decodeUtf8 (utf8Encode cs) = some cs := decodeUtf8_encode cs
+
+/-- a written line is one line and reads back as the stored form of the item -/
+theorem written_line_reads_back (it : MItem) (h : GoodItem it) : 10 ∉ lineOf it ∧ parseLine (lineOf it) = some (stored it) :=
+  ⟨lineOf_no_nl it h, parseLine_lineOf it h⟩
+
+/-- creating the writer establishes the invariant -/
+theorem new_writer_well_formed (maxSize maxFiles nowMs : Nat) (w : Writer) (acts : List Act)
+    (h : Writer.new {} maxSize maxFiles nowMs = some (w, acts)) :
+    ∃ al, WInv w (({} : FS).applyAll acts) al 0 0 ∧ al.flatMap AFile.items = [] := new_inv maxSize maxFiles nowMs w acts h
+
+/-- every `write` keeps it: the directory stays, file for file, the abstract log; the log gains exactly the accepted items and
+loses only whole oldest files -/
+theorem write_keeps_well_formed (w : Writer) (fs : FS) (al : List AFile) (B N ts : Nat) (items : List MItem) (h : WInv w fs al B N)
+    (hgood : ∀ it ∈ items, GoodItem { it with ts := ts }) :
+    ∃ al', WInv (w.write fs ts items).1 (fs.applyAll (w.write fs ts items).2.1) al'
+      (B + ((items.map (fun it => { it with ts := ts })).flatMap lineBytes).length) (N + items.length) ∧
+      ∃ k, al'.flatMap AFile.items = (al.flatMap AFile.items ++ accepted w ts items).drop k := write_inv w fs al B N ts items h hgood
+
+/-- a roll-over removes the oldest files beyond the limit, adds a new empty file whose name sorts after all others -/
+theorem rollover_spec (fs : FS) (al : List AFile) (h : RepL fs al) (hs : IdsSorted (al.map (·.id))) (maxFiles tsMs : Nat)
+    (hd : ∀ f ∈ al, f.id.day ≤ dayOfSec (tsMs / 1000)) :
+    RepL (fs.applyAll (rollActs fs maxFiles tsMs).2) (al.drop (dropCount al.length maxFiles) ++ [AFile.new (rollActs fs maxFiles tsMs).1]) ∧
+    IdsSorted ((al.drop (dropCount al.length maxFiles) ++ [AFile.new (rollActs fs maxFiles tsMs).1]).map (·.id)) ∧
+    (rollActs fs maxFiles tsMs).1.day = dayOfSec (tsMs / 1000) := roll_spec fs al h hs maxFiles tsMs hd
+
 end Sentinel.MLog
